@@ -152,7 +152,7 @@ def run_case(res, case):
     with stubdul.stubbed() as Stub:
         ae = TestAE('SCP', 0, bind_and_activate=False)
         try:
-            ae.add_scu(sopclass.storage_scu, [svc.CT])
+            ae.add_scu(sopclass.storage_scu, [svc.CT, svc.MR])
             ae.add_scp(sopclass.StorageCommitment())
             assoc = asceprovider.Association(ae, None, r.choice([16384, 128, 64]))
             assoc.remote_ae = 'REMOTE'
@@ -200,8 +200,15 @@ def run_case(res, case):
     if len(responses) != len(status_specs):
         res.violation('response-count:' + provider, 'C17.correlate', '%s: %d responses sent, %d expected' % (
             where, len(responses), len(status_specs)), case)
+    per = {}
+    if isinstance(sop_class, list):
+        # several requests answered in one call: what is expected differs per response
+        per = {'sop': sop_class, 'inst': req_instance, 'ctx': want_ctx, 'id': expected[4]}
+    request_id = msg_id
     for k, m in enumerate(responses):
         cmd = m['command']
+        if per and k < len(per['sop']):
+            sop_class, req_instance, want_ctx, msg_id = per['sop'][k], per['inst'][k], per['ctx'][k], per['id'][k]
         if m['problems']:
             res.violation('response-malformed:' + provider, 'C17.correlate', '%s: response %d: %s' % (
                 where, k, m['problems'][0]), case)
@@ -308,7 +315,14 @@ def call_provider(provider, assoc, ae, r, msg_id, pc_id, instance, expected, out
             R.TAG_PRIORITY: 0, R.TAG_MOVE_DESTINATION: 'DEST'}, dsutils.encode(q, True, True))
         store_statuses = [outcome if not raises else 0] * nsub
         Stub.preload_on_empty = svc.CooperativePeer(store_statuses)
-        if raises:
+        fault = r.random() < 0.25 and nsub and not raises
+        if fault:
+            # the destination accepts the association but not the context the instances need, or
+            # stops answering: the retrieve still has to be concluded
+            Stub.preload_on_empty = svc.CooperativePeer(store_statuses, refuse_classes=[svc.CT]) \
+                if r.random() < 0.5 else svc.CooperativePeer(store_statuses, silent_on_store=0)
+            expected += [sop, None, [not_pending]]
+        elif raises:
             expected += [sop, None, [is_failure]]
         else:
             expected += [sop, None, [{0xFF00}] * nsub + [not_pending]]
@@ -329,7 +343,7 @@ def call_provider(provider, assoc, ae, r, msg_id, pc_id, instance, expected, out
             R.TAG_REQUESTED_SOP_INSTANCE: svc.COMMIT_INSTANCE, R.TAG_ACTION_TYPE: 1},
             dsutils.encode(ds, True, True))
         expected += [sop, svc.COMMIT_INSTANCE, [{0x0110} if raises else {0x0000}]]
-        sopclass.StorageCommitment()(assoc, svc.context(pc_id, sop), rq)
+        _commitment_service(r, ae, 'n-event-report', raises, Stub)(assoc, svc.context(pc_id, sop), rq)
     elif provider == 'n-event-report':
         sop = svc.COMMIT
         ds = pydicom.Dataset()
@@ -343,7 +357,7 @@ def call_provider(provider, assoc, ae, r, msg_id, pc_id, instance, expected, out
             R.TAG_AFFECTED_SOP_INSTANCE: svc.COMMIT_INSTANCE, R.TAG_EVENT_TYPE: 1},
             dsutils.encode(ds, True, True))
         expected += [sop, svc.COMMIT_INSTANCE, [is_failure if raises else {0x0000}]]
-        sopclass.StorageCommitment()(assoc, svc.context(pc_id, sop), rq)
+        _commitment_service(r, ae, 'n-action', raises, Stub)(assoc, svc.context(pc_id, sop), rq)
     else:   # get-store: the C-STORE responses of the C-GET user
         sop = svc.CT
         ae.add_scu(sopclass.qr_get_scu)
@@ -359,6 +373,17 @@ def call_provider(provider, assoc, ae, r, msg_id, pc_id, instance, expected, out
         store_ctx = [cid for cid, c in ae.context_def_list.items() if str(c.sop_class) == sop][0]
         assoc.dul.script.extend([(store_rq, store_ctx), (final, 77)])
         expected += [sop, instance, [{0xC000} if raises else {outcome}], store_ctx]
+        if r.random() < 0.6:
+            # a second sub-operation of another class: it arrives on, and is answered on, another context
+            ctx2 = [cid for cid, c in ae.context_def_list.items() if str(c.sop_class) == svc.MR][0]
+            id2 = (msg_id + 1) % 65536
+            store2 = svc.request_message('CStoreRQMessage', {
+                R.TAG_AFFECTED_SOP_CLASS: svc.MR, R.TAG_COMMAND_FIELD: 0x0001, R.TAG_MESSAGE_ID: id2,
+                R.TAG_PRIORITY: 0, R.TAG_AFFECTED_SOP_INSTANCE: instance + '.2'}, dsutils.encode(ds, True, True))
+            assoc.dul.script.insert(1, (store2, ctx2))
+            status = [{0xC000} if raises else {outcome}]
+            expected[:] = [[sop, svc.MR], [instance, instance + '.2'], status * 2, [store_ctx, ctx2],
+                           [msg_id, id2]]
         q = pydicom.Dataset()
         q.PatientID = 'P'
         got = list(sopclass.qr_get_scu(assoc, svc.context(77, svc.GET), q, 9))
@@ -367,6 +392,44 @@ def call_provider(provider, assoc, ae, r, msg_id, pc_id, instance, expected, out
                           if not (e[0] == 'dimse' and _is_get_rq(e[1]))]
         return None, sop, instance
     return None, expected[0], expected[1]
+
+
+def _commitment_service(r, ae, other_kind, raises, Stub):
+    """The storage-commitment service object; half of the time one that has already served a message
+    of the other kind (N-ACTION before N-EVENT-REPORT and the reverse) on another association."""
+    from pynetdicom2 import asceprovider, sopclass, dsutils
+    import pydicom
+    service = sopclass.StorageCommitment()
+    if raises or r.random() < 0.5:
+        return service
+    # the stub hands `preload_on_empty` to the next provider created: keep the case's own peer for
+    # the case's own sub-association
+    saved, Stub.preload_on_empty = Stub.preload_on_empty, None
+    other = asceprovider.Association(ae, None, 16384)
+    other.remote_ae = 'EARLIER'
+    Stub.preload_on_empty = svc.CooperativePeer()
+    ds = pydicom.Dataset()
+    ds.TransactionUID = '1.2.3.97.1'
+    it = pydicom.Dataset()
+    it.ReferencedSOPClassUID = svc.CT
+    it.ReferencedSOPInstanceUID = '1.2.3.4.5'
+    ds.ReferencedSOPSequence = pydicom.Sequence([it])
+    if other_kind == 'n-action':
+        rq = svc.request_message('NActionRQMessage', {
+            R.TAG_REQUESTED_SOP_CLASS: svc.COMMIT, R.TAG_COMMAND_FIELD: 0x0130, R.TAG_MESSAGE_ID: 4242,
+            R.TAG_REQUESTED_SOP_INSTANCE: svc.COMMIT_INSTANCE, R.TAG_ACTION_TYPE: 1},
+            dsutils.encode(ds, True, True))
+    else:
+        rq = svc.request_message('NEventReportRQMessage', {
+            R.TAG_AFFECTED_SOP_CLASS: svc.COMMIT, R.TAG_COMMAND_FIELD: 0x0100, R.TAG_MESSAGE_ID: 4242,
+            R.TAG_AFFECTED_SOP_INSTANCE: svc.COMMIT_INSTANCE, R.TAG_EVENT_TYPE: 1},
+            dsutils.encode(ds, True, True))
+    try:
+        service(other, svc.context(9, svc.COMMIT), rq)
+    except Exception:
+        pass          # judged when that kind is the case's own request
+    Stub.preload_on_empty = saved
+    return service
 
 
 def _is_get_rq(pdus):
